@@ -23,7 +23,8 @@ use tx3_tir::model::v1beta0 as tir;
 pub struct C08;
 
 /// (txid byte, index): txid order and index order disagree
-const POOL: [(u8, u32); 5] = [(1, 2), (1, 0), (2, 1), (3, 0), (2, 5)];
+// (the same txid with indices 2 and 10: numeric and textual order disagree as well)
+const POOL: [(u8, u32); 5] = [(1, 2), (1, 10), (2, 1), (3, 0), (2, 5)];
 
 fn policy(i: usize) -> Vec<u8> {
     vec![[0x10u8, 0x20, 0x30][i]; 28]
@@ -35,8 +36,8 @@ pub struct Case {
     pub inputs: Vec<Vec<usize>>,
     /// iteration-order rank of each 2-UTxO set
     pub set_ranks: Vec<usize>,
-    /// (is_burn, policy index) in source order
-    pub mints: Vec<(bool, usize)>,
+    /// (is_burn, policy index, carries a redeemer) in source order
+    pub mints: Vec<(bool, usize, bool)>,
     /// reward account indices in source order
     pub withdrawals: Vec<usize>,
     /// source order of the input blocks in the `inputs` vector vs names: names[i] of block i
@@ -75,10 +76,10 @@ fn build(case: &Case) -> tir::Tx {
             redeemer: tir::Expression::None,
         });
     }
-    for (k, (is_burn, p)) in case.mints.iter().enumerate() {
+    for (k, (is_burn, p, red)) in case.mints.iter().enumerate() {
         let m = tir::Mint {
             amount: tirb::assets(vec![tirb::token(&policy(*p), format!("T{k}").as_bytes(), if *is_burn { 2 } else { 5 })]),
-            redeemer: tir::Expression::Number(200 + *p as i128),
+            redeemer: if *red { tir::Expression::Number(200 + *p as i128) } else { tir::Expression::None },
         };
         if *is_burn {
             tx.burns.push(m);
@@ -125,11 +126,14 @@ fn expected(case: &Case) -> BTreeMap<(u64, u64), i128> {
         }
     }
     // mint: distinct policies sorted bytewise
-    let mut pols: Vec<usize> = case.mints.iter().map(|(_, p)| *p).collect();
+    let mut pols: Vec<usize> = case.mints.iter().map(|(_, p, _)| *p).collect();
     pols.sort_by_key(|p| policy(*p));
     pols.dedup();
     for (i, p) in pols.iter().enumerate() {
-        out.insert((1, i as u64), 200 + *p as i128);
+        // a policy is guarded when some block on it carries a redeemer
+        if case.mints.iter().any(|(_, q, red)| q == p && *red) {
+            out.insert((1, i as u64), 200 + *p as i128);
+        }
     }
     // reward: accounts sorted bytewise
     let mut ws: Vec<usize> = case.withdrawals.clone();
@@ -291,8 +295,11 @@ fn input_configs(f: &mut dyn FnMut(Vec<Vec<usize>>)) {
     }
 }
 
-fn mint_seqs() -> Vec<Vec<(bool, usize)>> {
-    let items: Vec<(bool, usize)> = [false, true].iter().flat_map(|b| (0..3).map(move |p| (*b, p))).collect();
+fn mint_seqs() -> Vec<Vec<(bool, usize, bool)>> {
+    let items: Vec<(bool, usize, bool)> = [false, true]
+        .iter()
+        .flat_map(|b| (0..3).flat_map(move |p| [true, false].into_iter().map(move |r| (*b, p, r))))
+        .collect();
     let mut out = vec![vec![]];
     for len in 1..=3 {
         let total = items.len().pow(len as u32);
@@ -329,7 +336,7 @@ impl Prop for C08 {
     fn rule(&self, tier: Tier) -> String {
         format!(
             "constant TIRs compiled directly: all injective assignments of a 5-ref pool (txid order != index order) to 1..4 script inputs of 1 or 2 \
-             UTxOs (both iteration orders of every 2-UTxO set), all sequences of 0..3 mints/burns over 3 policies, all sequences of 0..2 withdrawals \
+             UTxOs (both iteration orders of every 2-UTxO set), all sequences of 0..3 mints/burns over 3 policies each with or without a redeemer, all sequences of 0..2 withdrawals \
              over 3 reward accounts, with / without an extra redeemer-less input; {}. Oracle: decoded witness-set map (tag, index) -> data = map built \
              from the source items sorted as the ledger sorts (inputs by (txid, index), policies and reward accounts bytewise). Non-trivial = compiled \
              and decoded; distinct = distinct case descriptions.",
@@ -351,7 +358,7 @@ impl Prop for C08 {
         input_configs(&mut |c| ins.push(c));
         let mints = mint_seqs();
         let wds = wd_seqs();
-        let mut emit = |inputs: &Vec<Vec<usize>>, m: &Vec<(bool, usize)>, w: &Vec<usize>, plain: bool| {
+        let mut emit = |inputs: &Vec<Vec<usize>>, m: &Vec<(bool, usize, bool)>, w: &Vec<usize>, plain: bool| {
             // every iteration order of every 2-UTxO set
             let doubles: Vec<usize> = inputs.iter().enumerate().filter(|(_, s)| s.len() == 2).map(|(i, _)| i).collect();
             let combos = 1usize << doubles.len();
@@ -374,7 +381,7 @@ impl Prop for C08 {
                 }
             }
         } else {
-            let fixed_m = [vec![], vec![(false, 1)], vec![(false, 2), (true, 0)]];
+            let fixed_m = [vec![], vec![(false, 1, true)], vec![(false, 2, true), (true, 0, false)]];
             let fixed_w = [vec![], vec![2, 0]];
             let fixed_i = [vec![vec![0]], vec![vec![3], vec![1, 2]]];
             for i in &ins {
